@@ -29,7 +29,7 @@ def to_case(i, cs):
             "--nr_exp", c["nr_exp"], "--ntheta_exp", -1 if c["ntheta_exp"] == 0 else c["ntheta_exp"],
             "--anisotropic_factor", 0, "--divideBy2", c["divideBy2"], "--maxOpenMPThreads", c["threads"]]
     misc = 1000 + c["cycle"] + 3 * ((c["pre"] - 1) + 2 * ((c["post"] - 1) + 2 * (c["norm"] + 3 * (c["fmgIts"] + 4 * c["fmgCycle"]))))
-    ctor = dict(ext=c["ext"], fmg=bool(c["fmg"]), L=cs["levels"], take=(c["method"] == 0), caches=bool(c["cacheDG"]),
+    ctor = dict(ext=c["ext"], fmg=bool(c["fmg"]), L=cs["levels"], take=(c["method"] == 0), caches=(bool(c["cacheDG"]) if c["cacheDG"] == c["cacheDP"] else (2 if c["cacheDP"] else 3)),
                 maxIter=c["maxIter"], absOn=bool(c["absOn"]), relOn=bool(c["relOn"]), exact=True, misc=misc, grid=0)
     return {"id": i, "base": [str(x) for x in base], "ctor": ctor, "steps": [sc.SETUP, sc.SOLVE], "c01": 1 if cs["rate"] else 0}
 
